@@ -78,10 +78,14 @@ func screenCheck(hi *Hist, frames []*Frame, facts []*BarFacts, prop string) *Vio
 		poppedRows := 0
 		popNow := map[int]bool{}
 		for bar, recs := range f.Spy {
-			if len(recs) > 0 && (recs[0].Completed || recs[0].Aborted) {
-				finishedRenders[bar]++
-				if finishedRenders[bar] == 3 && bar >= 0 && bar < len(facts) && poppable(hi, facts[bar]) {
-					popNow[bar] = true
+			// one record per render; with a render delay the cycles drawn into the void before the
+			// first real frame are all attached to that frame
+			for _, rec := range recs {
+				if rec.Completed || rec.Aborted {
+					finishedRenders[bar]++
+					if finishedRenders[bar] == 3 && bar >= 0 && bar < len(facts) && poppable(hi, facts[bar]) {
+						popNow[bar] = true
+					}
 				}
 			}
 		}
